@@ -34,6 +34,8 @@ type jtracer struct {
 	msgs   map[any]string
 	downs  map[any]string
 	yield  int // 0 none, 1 light, 2 heavy
+	steer  *steerer          // when set, every event is a gate of the behaviour being replayed (joesteer.go)
+	pids   map[string]string // IDs given by an ID-assigning replayer, by message name
 }
 
 func newTracer(seed int64, yield int) *jtracer {
@@ -44,6 +46,15 @@ func newTracer(seed int64, yield int) *jtracer {
 }
 
 func (t *jtracer) log(e jev) {
+	if t.steer != nil {
+		if a := eventActor(e); a != "" {
+			t.steer.gate(a, eventStep[e["e"].(string)])
+		}
+	}
+	t.logUngated(e)
+}
+
+func (t *jtracer) logUngated(e jev) {
 	t.mu.Lock()
 	t.evs = append(t.evs, e)
 	if s, ok := e["s"].(string); ok {
